@@ -1881,7 +1881,7 @@ def _process_trans_SIR_(time, G, source, target, times, S, I, R, Q, status,
                             args = (target, times, S, I, R, status))
         for v in trans_delay:
             inf_time = time + trans_delay[v]
-            if inf_time<= rec_time[target] and inf_time < pred_inf_time[v] and inf_time<=Q.tmax:
+            if trans_delay[v]<= rec_delay and inf_time < pred_inf_time[v] and inf_time<=Q.tmax:
                 Q.add(inf_time, _process_trans_SIR_, 
                               args = (G, target, v, times, S, I, R, Q, 
                                         status, rec_time, pred_inf_time, 
